@@ -53,7 +53,7 @@ MANIFEST = {
 }
 MODULES = ["PrimaiteModel.Props.C16", "PrimaiteModel.Props.C16Conn", "PrimaiteModel.Props.C16Transport",
            "PrimaiteModel.Props.C16Timeout", "PrimaiteModel.Props.C16Admin", "PrimaiteModel.Props.C16Local",
-           "PrimaiteModel.Props.C16Chain", "PrimaiteModel.Props.C16Ends"]
+           "PrimaiteModel.Props.C16Chain", "PrimaiteModel.Props.C16Ends", "PrimaiteModel.Props.C16Handle"]
 EXE = "drv_c16"
 
 
@@ -243,6 +243,11 @@ def run(ctx: Ctx):
     cfgs = dict(base_cfg, topo="routed", su=0, sd=0)
     for k, c in enumerate(rig.exhaustive_cases(cfgs, [dict(rig.self_alphabet()[0])], 3, rig.self_alphabet())):
         cases.append((f"exhself:{k}", c))
+    # kept connection objects (what Terminal.login returns): the second connection to a target and a local connection, used and
+    # logged off across every way their sessions end (time-out, password change on either node, logoff, logout, dead path)
+    cfgh = dict(base_cfg, topo="routed", max=3)
+    for k, c in enumerate(rig.exhaustive_cases(cfgh, rig.HANDLE_PREFIX, 3, rig.handle_alphabet())):
+        cases.append((f"exhhandle:{k}", c))
     # the local command path: every sequence of three operations of the local alphabet (quick: a seeded sample of the largest families)
     fam_rng = ctx.rng.fork("families")
     local_all = list(rig.exhaustive_cases(base_cfg, rig.LOCAL_PREFIX, 3, rig.local_alphabet()))
